@@ -21,8 +21,8 @@ ASSUMPTIONS = ["(a) restart limit is a symbolic integer in [0, 5] or None; at ev
                "(b) per task a symbolic behaviour (finish, raise, run until cancelled, finish slowly after the first cancel, hand over to a new task when finishing, "
                "spawn a clean-up task when cancelled); the operation (stop / wait / cancel then wait) and its instant are symbolic choices",
                "the solver's role here is the case split over these finite choices plus the arithmetic over the symbolic restart limit"]
-BOUNDS = {"quick": "(a) <= 3 runs per start, 2 starts of the same actor, 1 or 2 await points in the run logic; (b) 2 tasks; run() with 2 actors",
-          "thorough": "(a) <= 4 runs, 2 await points; (b) 3 tasks"}
+BOUNDS = {"quick": "(a) <= 4 runs per start, 2 starts of the same actor, 1 or 2 await points in the run logic; (b) 2 and 3 tasks; run() with 2 actors",
+          "thorough": "(a) <= 5 runs, 2 await points (budgeted)"}
 OUTSIDE = "thread-safety; actors started from other actors; cancel_and_await() swallowing the caller's own cancellation"
 BUDGET = {"quick": 300, "thorough": 900}
 LOG = []
@@ -432,7 +432,8 @@ def instances(tier):
           budget_s=100, validate_every=5),
         I("actor-start-while-stopping", "make_actor_restart", (), "start() while the previous run is being cancelled / cleaning up", budget_s=100, validate_every=5),
     ]
+    out += [I("runloop-K4-await2", "make_runloop", (4, 2), "<= 4 runs per start, 2 await points, 2 starts", budget_s=600, validate_every=500),
+            I("service-3", "make_service", (3, True), "3 tasks x 8 behaviours, 5 operations", budget_s=600, validate_every=100)]
     if tier != "quick":
-        out += [I("runloop-K4-await2", "make_runloop", (4, 2), "<= 4 runs, 2 await points (budgeted)", budget_s=600, validate_every=500, exhaustive=False),
-                I("service-3", "make_service", (3, True), "3 tasks", budget_s=600, validate_every=100)]
+        out += [I("runloop-K5-await2", "make_runloop", (5, 2), "<= 5 runs, 2 await points (budgeted)", budget_s=120, validate_every=5000, exhaustive=False)]
     return out
